@@ -23,13 +23,14 @@ BUDGET = {'quick': 6000, 'thorough': 160000}
 PROFILE = {
     'max_pods': 3, 'max_racks': 3,
     'weights': {'app': 14, 'rmsrv': 2, 'readd': 2, 'prio': 2, 'clone': 4,
-                'clone2': 4, 'fillclone2': 3, 'fill': 1, 'move': 2},
-    'force': ['clone2', 'fillclone2'],
-    'lease': False, 'dense_limits': True,
+                'clone2': 4, 'fillclone2': 3, 'fill': 1, 'move': 2,
+                'renew': 2, 'renewold': 3, 'adv': 2},
+    'force': ['clone2', 'fillclone2', 'renewold'],
+    'lease': True, 'dense_limits': True,
 }
 
 
-E2_PROFILE = {'max_pods': 2, 'max_racks': 3, 'weights': {'app': 14, 'rmsrv': 2, 'srv': 2, 'prio': 2, 'reparent': 3, 'cellev': 3, 'cellrm': 3, 'allocs': 2, 'restart': 2, 'resize': 2, 'bouncemove': 4}, 'force': ['bouncemove'], 'lease': False, 'dense_limits': True}
+E2_PROFILE = {'max_pods': 2, 'max_racks': 3, 'weights': {'app': 14, 'rmsrv': 2, 'srv': 2, 'prio': 2, 'reparent': 3, 'cellev': 3, 'cellrm': 3, 'allocs': 2, 'restart': 2, 'resize': 2, 'bouncemove': 4, 'renew': 2, 'adv': 2, 'tickreboots': 1}, 'force': ['bouncemove'], 'lease': True, 'dense_limits': True}
 
 
 def strategy(tier):
